@@ -5,7 +5,7 @@ PROP = "C01"
 LEAN_MODULE = "RSV.Props.C01all"
 RULE = ("proof: C01_cauchy / C01_xor / C01_default hold for ALL (d,p) with d+p<=256 and all survivor sets at once "
         "(polynomial argument); Jerasure and Leopard are decided per configuration by the proved certificate "
-        "(C01_certGC: certGC = true -> MDS) run by the compiled driver on the generator; correspondence: the generator "
+        "(C01_certGC / C01_leo8_cert / C01_leo16_cert: certificate = true -> MDS) run by the compiled driver on the generator; correspondence: the generator "
         "extracted from the real encoder through Encode of unit vectors must equal the model's generator, for which "
         "the certificate is evaluated.  A case = one (family,d,p); non-trivial = d>=2 and p>=2 (or the xor family)")
 ASSUMPTIONS = ["Encode applies the extracted generator column-wise to arbitrary data (that is C03/C04)",
